@@ -209,8 +209,8 @@ func (d *SevData) validateSections() error {
 
 	// An internal sortable type to check for overlap
 	type sectionCheck struct {
-		start uint32
-		end   uint32
+		start uint64
+		end   uint64 // 64 bits: Address+Length of untrusted 32-bit fields must not wrap
 		kind  uint32
 	}
 	checkData := make([]sectionCheck, len(d.snpMetadataSections))
@@ -237,8 +237,8 @@ func (d *SevData) validateSections() error {
 				SevSectionTypeToString(section.Kind), section.Length)
 		}
 		checkData[i] = sectionCheck{
-			start: section.Address,
-			end:   section.Address + section.Length,
+			start: uint64(section.Address),
+			end:   uint64(section.Address) + uint64(section.Length),
 			kind:  section.Kind}
 	}
 
